@@ -11,6 +11,8 @@
 (*             collection at Inbox.IRI(w) -- C15 (collection IRI), C13     *)
 (*             (insertion-ordered set); the network may deliver again      *)
 (*   Persist   an inbox is stored and loaded (gob) -- C03                  *)
+(*   Update    version 2 of message 1 is merged into the stored copy       *)
+(*             (CopyItemProperties) -- C18                                 *)
 (*                                                                         *)
 (* Two messages with the same addressing travel at once.  TLC checks that  *)
 (* the composition gives what a federation relies on: nothing private is   *)
@@ -26,8 +28,9 @@ EXTENDS Recipients
 CONSTANTS Msgs,            \* message ids, e.g. {1, 2}
           MaxRedeliver,    \* extra deliveries the network may perform in total
           StrictOrder      \* TRUE: Strip only after Address (the protocol); FALSE: either order
-VARIABLES wire, boxes, pending, extra     \* (the composed value is kept in Recipients!st0)
-dvars == <<st, ret, phase, st0, wire, boxes, pending, extra>>
+VARIABLES wire, boxes, pending, extra,    \* (the composed value is kept in Recipients!st0)
+          ver                              \* ver[w]: which version of message 1 the addressee w holds (0: none)
+dvars == <<st, ret, phase, st0, wire, boxes, pending, extra, ver>>
 
 None == [class |-> "none"]
 Deliverable(w) == w # 9                                   \* the Public collection has no inbox
@@ -49,39 +52,51 @@ Who == {e.w : e \in {x \in Pool : ~IsNilE(x)}}
 
 DInit == /\ \E all \in Lists(MaxTotal) : \E c \in Cuts(Len(all)) : \E h \in Heads : st = h @@ Cut(all, c[1], c[2], c[3], c[4])
          /\ ret = <<>> /\ phase = "composed" /\ st0 = st /\ wire = None
-         /\ boxes = [w \in Who |-> <<>>] /\ pending = {} /\ extra = 0
+         /\ boxes = [w \in Who |-> <<>>] /\ pending = {} /\ extra = 0 /\ ver = [w \in Who |-> 0]
 
 Address == /\ phase \in {"composed", "stripped-early"}
            /\ LET o == Outcome(st) IN
                 /\ st' = [st EXCEPT !.to = o.to, !.cc = o.cc, !.bto = o.bto, !.bcc = o.bcc, !.aud = o.aud]
                 /\ ret' = o.ret
            /\ phase' = IF phase = "composed" THEN "addressed" ELSE "stripped"
-           /\ UNCHANGED <<st0, wire, boxes, pending, extra>>
+           /\ UNCHANGED <<st0, wire, boxes, pending, extra, ver>>
 Strip == /\ phase = "addressed"
          /\ st' = StripOf(st) /\ phase' = "stripped"
-         /\ UNCHANGED <<ret, st0, wire, boxes, pending, extra>>
+         /\ UNCHANGED <<ret, st0, wire, boxes, pending, extra, ver>>
 StripEarly == /\ ~StrictOrder /\ phase = "composed"
               /\ st' = StripOf(st) /\ phase' = "stripped-early"
-              /\ UNCHANGED <<ret, st0, wire, boxes, pending, extra>>
+              /\ UNCHANGED <<ret, st0, wire, boxes, pending, extra, ver>>
 Encode == /\ phase = "stripped"
           /\ wire' = WireOf(st) /\ phase' = "sending"
           /\ pending' = {<<m, ret[i]>> : m \in Msgs, i \in {j \in 1..Len(ret) : Deliverable(ret[j])}}
-          /\ UNCHANGED <<st, ret, st0, boxes, extra>>
+          /\ UNCHANGED <<st, ret, st0, boxes, extra, ver>>
 Deliver(m, w) == /\ phase = "sending" /\ <<m, w>> \in pending
                  /\ boxes' = [boxes EXCEPT ![w] = AppendSet(@, m)]
                  /\ pending' = pending \ {<<m, w>>}
+                 /\ ver' = IF m = 1 /\ ver[w] = 0 THEN [ver EXCEPT ![w] = 1] ELSE ver
                  /\ UNCHANGED <<st, ret, phase, st0, wire, extra>>
 Redeliver(m, w) == /\ phase = "sending" /\ extra < MaxRedeliver
                    /\ w \in {ret[i] : i \in 1..Len(ret)} /\ Deliverable(w) /\ <<m, w>> \notin pending
                    /\ boxes' = [boxes EXCEPT ![w] = AppendSet(@, m)] /\ extra' = extra + 1
+                   /\ ver' = IF m = 1 /\ ver[w] = 0 THEN [ver EXCEPT ![w] = 1] ELSE ver      \* a re-delivered OLD copy never replaces a newer one
                    /\ UNCHANGED <<st, ret, phase, st0, wire, pending>>
 \* an inbox is written to storage and read back (gob, C03): nothing observable changes -- a named stuttering step that the
 \* trace specification checks on the real collections
-Persist(w) == /\ phase \in {"sending", "delivered"} /\ boxes[w] # <<>> /\ UNCHANGED dvars
+Persist(w) == /\ phase \in {"sending", "delivered", "updated"} /\ boxes[w] # <<>> /\ UNCHANGED dvars
+\* the sender publishes version 2 of message 1; an addressee that holds the message merges it (CopyItemProperties, C18):
+\* same id, same place in the inbox, new content
+\* (the merge supports objects, actors and collections -- class "plain"; for activities it is refused and the stored copy stays)
+Mergeable == st0.class = "plain"
+Update(w) == /\ phase = "delivered" /\ ver[w] = 1 /\ Mergeable
+             /\ ver' = [ver EXCEPT ![w] = 2]
+             /\ UNCHANGED <<st, ret, phase, st0, wire, boxes, pending, extra>>
+RefusedUpdate(w) == /\ phase = "delivered" /\ ver[w] = 1 /\ ~Mergeable /\ UNCHANGED dvars
+Settle == /\ phase = "delivered" /\ (Mergeable => \A w \in Who : ver[w] # 1) /\ phase' = "updated"
+          /\ UNCHANGED <<st, ret, st0, wire, boxes, pending, extra, ver>>
 Finish == /\ phase = "sending" /\ pending = {} /\ phase' = "delivered"
-          /\ UNCHANGED <<st, ret, st0, wire, boxes, pending, extra>>
-DNext == Address \/ Strip \/ StripEarly \/ Encode \/ (\E m \in Msgs, w \in Who : Deliver(m, w) \/ Redeliver(m, w)) \/ (\E w \in Who : Persist(w)) \/ Finish
-DSpec == DInit /\ [][DNext]_dvars /\ WF_dvars(Address \/ Strip \/ Encode \/ Finish \/ (\E m \in Msgs, w \in Who : Deliver(m, w)))
+          /\ UNCHANGED <<st, ret, st0, wire, boxes, pending, extra, ver>>
+DNext == Address \/ Strip \/ StripEarly \/ Encode \/ (\E m \in Msgs, w \in Who : Deliver(m, w) \/ Redeliver(m, w)) \/ (\E w \in Who : Persist(w) \/ Update(w) \/ RefusedUpdate(w)) \/ Settle \/ Finish
+DSpec == DInit /\ [][DNext]_dvars /\ WF_dvars(Address \/ Strip \/ Encode \/ Finish \/ Settle \/ (\E m \in Msgs, w \in Who : Deliver(m, w)) \/ (\E w \in Who : Update(w)))
 
 \* ---- what the composition guarantees -------------------------------------
 OrigBlocked == Blocked
@@ -92,5 +107,7 @@ AtMostOnce == \A w \in Who : \A i, j \in 1..Len(boxes[w]) : i # j => boxes[w][i]
 EveryoneServed == phase = "delivered" => \A w \in Addressees : {boxes[w][i] : i \in 1..Len(boxes[w])} = Msgs
 WireKeepsPublicAddressing == wire # None => /\ Whos(wire.to) = Whos(st0.to) \ OrigBlocked
                                             /\ Whos(wire.cc) \subseteq Whos(st0.cc)
-Terminates == <>(phase = "delivered")
+EveryoneUpToDate == phase = "updated" => \A w \in Addressees : ver[w] = IF Mergeable THEN 2 ELSE 1
+UpdateKeepsInbox == \A w \in Who : (ver[w] > 0) = (\E i \in 1..Len(boxes[w]) : boxes[w][i] = 1)
+Terminates == <>(phase = "updated")
 =============================================================================
